@@ -140,11 +140,18 @@ def run(case, max_steps=300000):
                     rec['exc'] = InvFailure(me) if plan['outcome'] == 'raise' else InvBaseFailure(me)
                     raise rec['exc']
                 rec['kind'] = 'ret'
-                rec['value'] = ('value', key, me)
+                rec['value'] = None if plan['outcome'] == 'ret_none' else ('value', key, me)      # None is a result too
                 return rec['value']
             except aio.CancelledError:
                 if not sim.aborted:
                     rec['kind'] = 'cancel'
+                    if plan.get('cleanup'):
+                        # the computation takes a while to honour the cancellation (asynchronous clean-up): it is still
+                        # in progress until that is over
+                        try:
+                            await aio.sleep(plan['cleanup'])
+                        except aio.CancelledError:
+                            pass
                 raise
             finally:
                 if not sim.aborted:
@@ -235,6 +242,17 @@ def run(case, max_steps=300000):
                     await await_all()
                 elif end['mode'] == 'leave':
                     await aio.sleep(end['at'])
+                elif end['mode'] == 'cancel-all':
+                    # the application cancels every other task of its loop (its own callers and whatever else runs
+                    # there, e.g. waits scheduled by other loops) and awaits them while the loop keeps running
+                    await aio.sleep(end['at'])
+                    others = [t for t in aio.all_tasks() if t is not aio.current_task()]
+                    for t in others:
+                        if t in task_owner and not t.done():
+                            callers[task_owner[t]]['cancel_req'] = (sim.now, sim.steps)
+                        t.cancel()
+                    if others:
+                        await aio.gather(*others, return_exceptions=True)
                 else:   # stop: the loop is stopped from a timer while main is pending
                     def do_stop():
                         mark_left()
